@@ -745,7 +745,7 @@ func (c *updater) buildBackendOAuth(d *backData) {
 		}
 		uriPrefix = strings.TrimRight(uriPrefix, "/")
 		namespace := oauth.Source.Namespace
-		backend := c.findBackend(namespace, uriPrefix)
+		backend := c.findBackend(namespace, path.Link.Hostname(), uriPrefix)
 		if backend == nil {
 			c.logger.Error("path '%s' was not found on namespace '%s'", uriPrefix, namespace)
 			continue
@@ -778,8 +778,17 @@ func (c *updater) buildBackendOAuth(d *backData) {
 	}
 }
 
-func (c *updater) findBackend(namespace, uriPrefix string) *hatypes.HostBackend {
-	for _, host := range c.haproxy.Hosts().Items() {
+func (c *updater) findBackend(namespace, hostname, uriPrefix string) *hatypes.HostBackend {
+	// the same path might be declared in more than one hostname of the namespace,
+	// the one of the protected hostname has precedence, otherwise use a stable order
+	hosts := c.haproxy.Hosts().BuildSortedItems()
+	if host := c.haproxy.Hosts().DefaultHost(); host != nil {
+		hosts = append(hosts, host)
+	}
+	if host := c.haproxy.Hosts().FindHost(hostname); host != nil {
+		hosts = append([]*hatypes.Host{host}, hosts...)
+	}
+	for _, host := range hosts {
 		for _, path := range host.Paths {
 			if strings.TrimRight(path.Path(), "/") == uriPrefix && path.Backend.Namespace == namespace {
 				return &path.Backend
